@@ -610,6 +610,26 @@ func (t *Table) Delete(input *types.DeleteItemInput) (map[string]*types.Item, er
 		return nil, types.NewError("ValidationException", err.Error(), nil)
 	}
 
+	// support conditional writes: the condition is decided on the item stored under the request's own key
+	if input.ConditionExpression != nil {
+		aliases := make(map[string]string, len(input.ExpressionAttributeNames))
+		for name, alias := range input.ExpressionAttributeNames {
+			aliases[name] = types.StringValue(alias)
+		}
+
+		_, matched := t.matchKey(QueryInput{
+			Index:                     PrimaryIndexName,
+			ExpressionAttributeValues: input.ExpressionAttributeValues,
+			Aliases:                   aliases,
+			Limit:                     1,
+			ConditionExpression:       input.ConditionExpression,
+		}, t.getItem(key))
+
+		if !matched {
+			return nil, types.NewError("ConditionalCheckFailedException", ErrConditionalRequestFailed.Error(), nil)
+		}
+	}
+
 	// delete is an idempotent operation,
 	// running it multiple times on the same item or attribute does not result in an error response,
 	// therefore we do not need to check if the item exists.
